@@ -39,6 +39,11 @@ impl Gates {
     pub fn none() -> Gates {
         Gates::default()
     }
+    /// only the gates whose name starts with `prefix` (properties that reuse progen's clean-profile
+    /// mechanism for their own findings)
+    pub fn only_prefixed(&self, prefix: &str) -> Gates {
+        Gates { open: self.open.iter().filter(|g| g.starts_with(prefix)).cloned().collect() }
+    }
 }
 
 pub fn load_findings() -> Vec<Value> {
